@@ -5,6 +5,7 @@ use crate::e1_twin::TwinSim;
 use crate::e1_collide::CollideSim;
 use crate::e1_valid::ValidSim;
 use crate::e3_state::StateSim;
+use crate::e3_wrap::WrapSim;
 use crate::e4_adt::AdtSim;
 use crate::e5_interp::InterpSim;
 use crate::e2_journal::JournalSim;
@@ -70,8 +71,8 @@ pub fn check(prop: &str, tier: &str) -> i32 {
                 "absent account/slot is identified with cold + database value; RIPEMD touch exception excluded".into(),
                 "frame level: hooks fire before frame set-up, so warm marks and the creator's nonce bump are excluded".into(),
             ];
-            rep.run_engine(&JournalSim { focus: "C06".into() }, scale(tier, 200_000, 10_000_000), &findings);
-            rep.run_engine(&TxSim { focus: "C06".into() }, scale(tier, 20_000, 1_000_000), &findings);
+            rep.run_engine(&JournalSim { focus: "C06".into() }, scale(tier, 2_000_000, 30_000_000), &findings);
+            rep.run_engine(&TxSim { focus: "C06".into() }, scale(tier, 200_000, 4_000_000), &findings);
         }
         "C07" | "C08" | "C09" | "C10" | "C11" | "C29" | "C30" | "C34" => {
             rep.rule = E1_RULE.into();
@@ -79,8 +80,8 @@ pub fn check(prop: &str, tier: &str) -> i32 {
             rep.stub_components = strs(STUB_E1);
             rep.assumptions = vec!["the monitor reads only the journaled state, never the database".into(), "injected inspector outcomes are legal ones (gas <= forwarded gas, results real frames produce)".into()];
             let (q, t) = match prop {
-                "C07" => (6_000, 300_000),
-                _ => (30_000, 1_500_000),
+                "C07" => (12_000, 300_000),
+                _ => (300_000, 6_000_000),
             };
             rep.run_engine(&TxSim { focus: prop.into() }, scale(tier, q, t), &findings);
             if prop == "C11" {
@@ -90,7 +91,7 @@ pub fn check(prop: &str, tier: &str) -> i32 {
             }
             if prop == "C34" {
                 rep.real_components.extend(strs(REAL_E2));
-                rep.run_engine(&JournalSim { focus: "C34".into() }, scale(tier, 100_000, 5_000_000), &findings);
+                rep.run_engine(&JournalSim { focus: "C34".into() }, scale(tier, 1_000_000, 10_000_000), &findings);
             }
         }
         "C28" | "C31" | "C22" => {
@@ -102,7 +103,7 @@ pub fn check(prop: &str, tier: &str) -> i32 {
             rep.real_components.push("revm inspectors NoOpInspector, GasInspector, TracerEip3155 (C28)".into());
             rep.stub_components = strs(STUB_E1);
             rep.assumptions = vec!["spec changes stay on one side of Spurious Dragon (the state-clear flag of the database layers is the embedder's job)".into(), "C22: histories in which the beneficiary is a party of a transaction are not compared (the twins may legitimately diverge)".into()];
-            rep.run_engine(&TwinSim { mode: prop.into() }, scale(tier, 30_000, 1_500_000), &findings);
+            rep.run_engine(&TwinSim { mode: prop.into() }, scale(tier, 200_000, 4_000_000), &findings);
         }
         "C15" | "C16" | "C17" | "C18" | "C19" => {
             rep.rule = "seeded histories of 1-6 transition groups (0-3 real EVM transactions each over a generated world with CREATE2 factories, self-destructs, storage writes, plus increment_balances / drain_balances) committed into a State with bundle tracking over the simulated disk; the scheduler decides merge points (one per group), flush points (take_bundle + changeset applied to the durable disk), crashes (Evm and State dropped, rebuilt over the durable disk, lost groups re-executed), the split point for extend / preloaded bundle and database faults (inside a transaction, inside increment_balances); oracles: reads vs reference plain state after every group and State vs CacheDB results (C15), pre-state + changeset(Yes/No) = post-state (C16), revert walk group by group and bundle.revert(j) for every j (C17), A.extend(B) / take_n_reverts / prepend_state vs the monolithic bundle (C18), State with a preloaded bundle vs State over the merged disk (C19); distinct by the hash of (spec, execution results)".into();
@@ -112,7 +113,23 @@ pub fn check(prop: &str, tier: &str) -> i32 {
             ];
             rep.stub_components = vec!["SimDisk + FaultyDb (simulated disk, fault injection)".into(), "reference appliers: apply_evm_state, apply_changeset, undo_group (sim/src/disk.rs, sim/src/e3_state.rs)".into()];
             rep.assumptions = vec!["plain state is compared after normalisation: zero slots dropped; with state clear an empty account without storage equals no account".into(), "State::storage is only called after the account was loaded (documented precondition)".into()];
-            rep.run_engine(&StateSim { focus: prop.into() }, scale(tier, 20_000, 1_000_000), &findings);
+            rep.run_engine(&StateSim { focus: prop.into() }, scale(tier, 150_000, 3_000_000), &findings);
+        }
+        #[cfg(feature = "optimism")]
+        "C33" => {
+            rep.rule = "optimism build: seeded worlds (BEDROCK..ISTHMUS, L1 block contract storage in Bedrock/Ecotone/Isthmus layouts incl. non-zero operator fee scalar and constant, fee vaults, Raw/CacheDB/State stacks) and histories of 1-4 regular, deposit and (pre-Regolith) system transactions with random enveloped bytes; deposits are pushed into halts at arbitrary points by low gas limits (F2); F1 database faults at drawn call indices (L1 block info reads, the failed-deposit path); oracles: sender debit = value + beneficiary + base-fee vault + L1 vault + operator vault credits, L1 vault credit = calculate_tx_l1_cost(enveloped), base-fee vault = base fee x gas used, deposit supply delta = mint, failed deposit persists exactly mint and nonce bump; distinct by the hash of (spec, kind and outcome sequence)".into();
+            rep.real_components = vec!["revm optimism handler register (validation, deduct_caller, last_frame_return, refund, reimburse_caller, reward_beneficiary, output, end), L1BlockInfo, fast_lz; Evm + interpreter + layer stacks as in E1".into()];
+            rep.stub_components = strs(STUB_E1);
+            rep.assumptions = vec!["balances stay below 2^128 (saturating arithmetic is not the subject)".into(), "programs move no ether themselves (only the transaction's value), so the five parties' deltas are attributable".into(), "deposits that cannot start (gas limit below intrinsic gas) are not generated".into()];
+            rep.run_engine(&crate::op_sim::OpSim, scale(tier, 300_000, 6_000_000), &findings);
+        }
+        "C20" => {
+            rep.rule = "seeded worlds on the simulated disk, one of ten wrapper stacks drawn per run (CacheDB, State, State+bundle, WrapDatabaseRef, WrapDatabaseRef<CacheDB>, CacheDB<CacheDB>, State<CacheDB>, Box<State<Box>>, DatabaseComponents<Arc,Arc>, CacheDB<DatabaseComponents>) and sequences of 4-40 queries (basic, code_by_hash, storage, block_hash around the 256-block window / far past / future, has_storage) issued directly, through `&mut DB`, through `&mut dyn Database` in a Box and through the `_ref` forms, interleaved with real transactions committed through the stack and block-number jumps; every answer must equal the reference (disk + committed changes); F1: a fault at a drawn bottom-level call index of a query must surface as an error (never a default) and the repeated query must then be right; distinct by the hash of (stack, query kinds, call forms)".into();
+            rep.level = "fault_enumeration".into();
+            rep.real_components = vec!["revm::db::{CacheDB, State, WrapDatabaseRef}, revm_primitives::db::{DatabaseComponents, Database/DatabaseRef auto_impls for &mut, Box, Arc} (unmodified)".into(), "revm::Evm for the committed transactions".into()];
+            rep.stub_components = vec!["SimDisk + FaultyDb (also implementing the StateRef/BlockHashRef component traits)".into()];
+            rep.assumptions = vec!["State::storage / has_storage are called after the account was loaded (documented precondition)".into(), "an existing empty account and a missing account are the same answer once state clearing is active; code may be handed out lazily".into(), "fault indices 0..2 per query cover every bottom-level call a single query makes (at most three)".into()];
+            rep.run_engine(&WrapSim, scale(tier, 400_000, 10_000_000), &findings);
         }
         "C25" => {
             rep.rule = "E5: the interpreter alone on random byte strings, generated and mutated programs and every shipped EOF container (plus byte-mutated ones) that revm's own validation accepts, x calldata x gas limit (0 .. 1M) x 13 specs x static flag, with a simulated Host failing at a drawn host-call index and a simulated caller answering every CALL/CREATE/EOFCREATE action with a drawn legal outcome; oracles: no panic, the instruction-pointer hook (cfg risechain_revm_verif) never fires, remaining gas <= limit, stack <= 1024, at most gas_limit+2 steps, a defined final result, FatalExternalError after a failed host call. E1: every oracle of the whole-transaction monitor mode switched on, any panic inside revm during a transaction (incl. under database faults and inspector short-circuits) is a C25 violation. Distinct by the hash of (spec, eof flag, sub-action sequence, result, step count) resp. the E1 event hash".into();
@@ -151,7 +168,7 @@ pub fn check(prop: &str, tier: &str) -> i32 {
             rep.real_components = strs(REAL_E1);
             rep.stub_components = strs(STUB_E1);
             rep.assumptions = vec!["EIP-7610 is applied for every spec, as the property states".into(), "CREATE/CREATE2 cells run from Tangerine/Petersburg on (before EIP-150 a failed create leaves the caller without gas)".into()];
-            rep.run_engine(&CollideSim, scale(tier, 40_000, 1_000_000), &findings);
+            rep.run_engine(&CollideSim, scale(tier, 200_000, 3_000_000), &findings);
         }
         "C02" => {
             rep.rule = "seeded histories of 1-10 transactions on one Evm whose fields are mutated to boundary values (gas limit around intrinsic/floor/block limit, fees around the base fee, nonce around the state nonce, value around the balance, overflowing cost products, sender with code / delegated, initcode around the size limit, blob counts and versions, authorization lists, access lists before Berlin, chain id, missing header fields); oracle 1: an executable validity predicate written from the EIPs must agree on accept / reject-transaction / reject-header; oracle 2: the same history without the rejected transactions on a second system gives equal results and an equal final state; F1: database faults during validation; non-trivial always, distinct by the hash of (spec, verdict and rule sequence)".into();
@@ -159,7 +176,7 @@ pub fn check(prop: &str, tier: &str) -> i32 {
             rep.stub_components = strs(STUB_E1);
             rep.stub_components.push("validity predicate (sim/src/model.rs, written from the EIP texts)".into());
             rep.assumptions = vec!["only the class of a rejection is compared (several rules can fail at once)".into(), "type-4 transactions with nil `to` are not generated (not expressible on the wire)".into()];
-            rep.run_engine(&ValidSim, scale(tier, 60_000, 3_000_000), &findings);
+            rep.run_engine(&ValidSim, scale(tier, 400_000, 8_000_000), &findings);
         }
         _ => {
             eprintln!("unknown property {prop}");
@@ -194,6 +211,9 @@ pub fn replay(path: &str) -> i32 {
         "collidesim" => replay_with(&CollideSim, &rf),
         "statesim" => replay_with(&StateSim { focus }, &rf),
         "adtsim" => replay_with(&AdtSim { focus }, &rf),
+        "wrapsim" => replay_with(&WrapSim, &rf),
+        #[cfg(feature = "optimism")]
+        "opsim" => replay_with(&crate::op_sim::OpSim, &rf),
         "interpsim" => replay_with(&InterpSim { eof_corpus: Default::default() }, &rf),
         other => Err(format!("unknown engine {other}")),
     };
